@@ -1,6 +1,7 @@
 /- Stage 5: constant pool facts, loading of constants, whole programs with heap values (C01, C06, C13, C14). -/
 import Nlmodel.Proofs.Lemmas.SimHAll
 import Nlmodel.Proofs.Lemmas.SimFnProgram
+import Nlmodel.Proofs.Lemmas.GCFinish
 namespace Nl
 namespace SimH
 open Spec Sim
@@ -151,6 +152,84 @@ theorem start_poolH (bc : Bytecode) (hl : LitPool bc.consts) :
     obtain ⟨a0, h1, h2⟩ := h4 k s hk
     exact ⟨a0, by simpa [VM.start] using h1, by simpa [VM.start] using h2, fun a e => by cases e⟩
 
+/-! ## the managed list at the start, and what the hand-over at `Halt` needs -/
+
+theorem loadConsts_mok (μ : AMap) : ∀ (cs : List Const) (m : Mem) (vs : Array Value), MemOK μ m → MemOK μ (loadConsts cs (m, vs)).1 := by
+  intro cs
+  induction cs with
+  | nil => intro m vs h; exact h
+  | cons c cs ih =>
+    intro m vs h
+    cases c with
+    | int i => exact ih m _ h
+    | fn ip nl => exact ih m _ h
+    | float b => exact ih _ _ (mok_alloc h (.float b) (fun _ _ x => x) (fun mvs e => by cases e))
+    | str t => exact ih _ _ (mok_alloc h (.str t) (fun _ _ x => x) (fun mvs e => by cases e))
+
+theorem start_mok (bc : Bytecode) : MemOK (fun _ => none) (VM.start {} bc).mem := by
+  have := loadConsts_mok (fun _ => none) bc.consts { heap := ({} : VM).mem.heap, managed := [] } #[]
+    ⟨List.nodup_nil, fun a h => (by cases h), fun a mvs h => (by simp [Heap.get] at h)⟩
+  simpa [VM.start] using this
+
+/-- related machine values are kind-correct -/
+theorem vrh_kindok {μ : AMap} {st : SState} {h : Heap} (hr : HR μ st h) (v : SVal) (mv : Value) (hv : VRh μ st h v mv) :
+    GC.KindOK h mv := by
+  cases mv with
+  | float a' =>
+    cases v <;> simp only [VRh] at hv
+    simp [GC.KindOK, Heap.arrAt, hv]
+  | str a' =>
+    cases v <;> simp only [VRh] at hv
+    rename_i a
+    obtain ⟨h1, h2⟩ := hv
+    cases hc : st.store[a]? with
+    | none => simp [hc, isStrCell] at h2
+    | some c =>
+      cases c with
+      | arr vs => simp [hc, isStrCell] at h2
+      | str s => simp [GC.KindOK, Heap.arrAt, hr.str a a' s h1 hc]
+  | _ => simp [GC.KindOK]
+
+theorem vrl_kindok {μ : AMap} {st : SState} {h : Heap} (hr : HR μ st h) : ∀ (vs : List SVal) (ms : List Value), VRL μ st h vs ms →
+    ∀ w, w ∈ ms → GC.KindOK h w
+  | [], [], _, w, hw => by cases hw
+  | v :: vs, m :: ms, hl, w, hw => by
+    cases List.mem_cons.1 hw with
+    | inl e => subst e; exact vrh_kindok hr v _ hl.1
+    | inr e => exact vrl_kindok hr vs ms hl.2 w e
+  | [], _ :: _, hl, _, _ => by simp [VRL] at hl
+  | _ :: _, [], hl, _, _ => by simp [VRL] at hl
+
+theorem heap_kind_ok {μ : AMap} {st : SState} {m : Mem} (hr : HR μ st m.heap) (hm : MemOK μ m) : GC.HeapKindOK m.heap := by
+  intro a w hw
+  cases hg : m.heap.get a with
+  | arr mvs =>
+    simp only [Heap.arrAt, hg] at hw
+    obtain ⟨_, a0, hμ⟩ := hm.arrs a mvs hg
+    have hlt := (hr.dom a0 a hμ).1
+    cases hc : st.store[a0]? with
+    | none => simp at hc; omega
+    | some c =>
+      cases c with
+      | str s => have := hr.str a0 a s hμ hc; rw [hg] at this; cases this
+      | arr vs =>
+        obtain ⟨mvs', h1, h2⟩ := hr.arr a0 a vs hμ hc
+        rw [hg] at h1; injection h1 with h1; subst h1
+        exact vrl_kindok hr vs mvs h2 w hw
+  | _ => simp [Heap.arrAt, hg] at hw
+
+/-- the hand-over at `Halt` (`untrace`, then the collector is dropped) leaves the result's deep view intact -/
+theorem finish_keeps_tree {μ : AMap} {st : SState} {m : Mem} (hr : HR μ st m.heap) (hm : MemOK μ m) (v : SVal) (mv : Value)
+    (hv : VRh μ st m.heap v mv) (s : VM) (hs : s.mem = m) (f : Nat) (p : List Nat) :
+    (finishValue mv s).mem.heap.tree f p mv = m.heap.tree f p mv := by
+  subst hs
+  simp only [finishValue]
+  exact GC.finish_tree s.mem mv (heap_kind_ok hr hm) (vrh_kindok hr v mv hv) hm.nd
+    (fun a ha => by
+      cases hg : s.mem.heap.get a with
+      | arr mvs => exact (hm.arrs a mvs hg).1
+      | _ => simp [Heap.arrAt, hg] at ha) f p
+
 /-- END TO END, stage 5: a top-level program with floats, strings, arrays, indexing, index assignment,
     all seven builtins (incl. `print`), global variables and control flow (`HB [] false p Γ'`), compiled
     by the compiler model and run on a fresh machine: the run halts with a value whose DEEP VIEW (what
@@ -159,7 +238,8 @@ theorem start_poolH (bc : Bytecode) (hl : LitPool bc.consts) :
 theorem heap_program (p : RBlock) (Γ' : Gam) (hx : HB [] false p Γ') (bc : Bytecode) (hc : compileR p = .ok bc) (F : Nat) :
     match evalB F p {} with
     | .val () st' => ∃ mv n s', (∀ k, runSteps bc.code (n + k) (VM.start {} bc) = .value mv s') ∧
-        s'.mem.heap.tree treeDepth [] mv = st'.tree treeDepth [] st'.last ∧ s'.out = st'.out
+        s'.mem.heap.tree treeDepth [] mv = st'.tree treeDepth [] st'.last ∧ s'.out = st'.out ∧
+        (finishValue mv s').mem.heap.tree treeDepth [] mv = s'.mem.heap.tree treeDepth [] mv
     | .err er ste => ∃ n s', (∀ k, runSteps bc.code (n + k) (VM.start {} bc) = .error er s') ∧ s'.out = ste.out
     | .brk _ => False
     | .cont _ => False
@@ -174,7 +254,7 @@ theorem heap_program (p : RBlock) (Γ' : Gam) (hx : HB [] false p Γ') (bc : Byt
     simp [setH, VM.start]
   have hinv0 : Inv5 (VM.start {} bc) bc.consts [] (fun _ => none) {} #[] .null (VM.start {} bc).mem [] :=
     ⟨fun _ _ hm => (by cases hm), trivial,
-     ⟨fun _ _ _ e => (by cases e), fun _ _ e => (by cases e), fun _ _ _ e => (by cases e), fun _ _ _ e => (by cases e)⟩, rfl, hpool⟩
+     ⟨fun _ _ _ e => (by cases e), fun _ _ e => (by cases e), fun _ _ _ e => (by cases e), fun _ _ _ e => (by cases e)⟩, rfl, hpool, start_mok bc⟩
   have hsim := (pall5 (s0 := VM.start {} bc) (CS := bc.consts) (C := bc.code) F).b [] false p Γ' hx (by simp [GamOK])
     (fun _ => none) {} 0 none [] #[] #[] .null (VM.start {} bc).mem [] hinv0 h1 (by rw [hconsts]; exact Ext.refl _)
   cases hr : evalB F p {} with
@@ -185,9 +265,10 @@ theorem heap_program (p : RBlock) (Γ' : Gam) (hx : HB [] false p Γ') (bc : Byt
     simp only [emitB_size, Nat.zero_add] at hhalt hn
     have hs : step bc.code (setH (VM.start {} bc) (sizeB p) #[] g' l' m' out') = .halt l' (setH (VM.start {} bc) (sizeB p + 1) #[] g' l' m' out') := by
       rw [step_exec (C := bc.code) hhalt]; rfl
-    refine ⟨l', n + 1, _, fun k => run_halt bc.code n _ _ l' _ hn hs k, ?_, ?_⟩
+    refine ⟨l', n + 1, _, fun k => run_halt bc.code n _ _ l' _ hn hs k, ?_, ?_, ?_⟩
     · exact (tree_rel hinv.hr treeDepth [] [] st'.last l' trivial hinv.last).symm
     · exact hinv.out.symm
+    · exact finish_keeps_tree hinv.hr hinv.mok st'.last l' hinv.last _ rfl treeDepth []
   | err er ste =>
     rw [hr] at hsim
     obtain ⟨n, s1, s2, hn, hs, ho⟩ := hsim
